@@ -1,5 +1,6 @@
-(* C11 -- change of the time unit: the absolute masks of gradient._derivative_integral break the
-   homogeneity of the derivative integral (finding c11-absolute-threshold).                  *)
+(* C11 -- change of the time unit.  With the dimensionless masks (fix 602caf6) the derivative
+   integral is exactly homogeneous of degree 2 under (w, eigenvalues, dt) -> (w/lam, ev/lam, lam dt);
+   with the absolute masks of the pre-fix code it was not (witness).                            *)
 From Coq Require Import ZArith Reals Lra Lia List.
 From Coquelicot Require Import Coquelicot.
 From FF Require Import Base.Ops Inst.RInst Base.RAlg Model.Numeric Model.Gradient Proofs.Foi Proofs.MatAlg Proofs.Gradient.
@@ -23,29 +24,113 @@ Proof.
   rewrite Q, Rmult_1_r, S. rewrite <- !mult_IZR. apply IZR_lt. exact H.
 Qed.
 
-(* The true parameter integral is homogeneous of degree 2 under a change of the time unit
-   (x, b -> x/lam, b/lam; dt -> lam dt); with the absolute masks the model is not: the extracted
-   threshold, lam = 2^27, a single level, w = 10, dt = 1 (|sin|, |cos| <= 1 suffice).            *)
-Theorem time_scaling_refuted :
+(* ------------------------------------------------------------------ homogeneity (current code) *)
+Section Scaling.
+Variable lam : R.
+Hypothesis lam_pos : 0 < lam.
+
+Lemma vg_map_div ev i : vg RO (map (fun e => e / lam) ev) i = vg RO ev i / lam.
+Proof.
+  unfold vg, vget. change (o0 RO) with 0. replace 0 with (0 / lam) at 1 by (unfold Rdiv; ring).
+  apply (map_nth (fun e => e / lam)).
+Qed.
+Lemma scaled_angle x dt : x / lam * (dt * lam) = x * dt.
+Proof. field. lra. Qed.
+
+Lemma di_tmp2_scaling thr x dt : 0 < thr ->
+  di_tmp2 RO thr (x / lam) (dt * lam) = cscal RO lam (di_tmp2 RO thr x dt).
+Proof.
+  intros H0. destruct (Rlt_le_dec (Rabs (x * dt)) thr) as [H|H].
+  - rewrite !di_tmp2_masked by (rewrite ?scaled_angle; exact H). apply c_eq; csimp; ring.
+  - assert (Hx : x <> 0) by exact (unmasked_nz thr x dt H0 H).
+    rewrite !di_tmp2_unmasked by (rewrite ?scaled_angle; exact H). rewrite scaled_angle.
+    apply c_eq; csimp; field; lra.
+Qed.
+
+Lemma di_tmp1_scaling thr x dt : 0 < thr ->
+  di_tmp1 RO thr (x / lam) (dt * lam) = cscal RO (lam * lam) (di_tmp1 RO thr x dt).
+Proof.
+  intros H0. unfold di_tmp1. rewrite di_tmp2_scaling by auto.
+  change (omul RO (x / lam) (dt * lam)) with (x / lam * (dt * lam)). rewrite scaled_angle.
+  change (omul RO x dt) with (x * dt).
+  destruct (Rlt_le_dec (Rabs (x * dt)) thr) as [H|H].
+  - rewrite !ltabs_true by exact H. rewrite !cite_true. apply c_eq; unfold o2; csimp; field.
+  - assert (Hx : x <> 0) by exact (unmasked_nz thr x dt H0 H).
+    rewrite !ltabs_false by exact H. rewrite !cite_false. apply c_eq; csimp; field; lra.
+Qed.
+
+Lemma di_nz_scaling thr thr_y x b dt : 0 < thr -> 0 < thr_y -> b <> 0 ->
+  di_nz RO thr thr_y (x / lam) (b / lam) (dt * lam) = cscal RO (lam * lam) (di_nz RO thr thr_y x b dt).
+Proof.
+  intros H0 H0y Hb. unfold di_nz. rewrite di_tmp2_scaling by auto.
+  change (oadd RO (x / lam) (b / lam)) with (x / lam + b / lam). change (oadd RO x b) with (x + b).
+  replace (x / lam + b / lam) with ((x + b) / lam) by (field; lra).
+  change (omul RO ((x + b) / lam) (dt * lam)) with ((x + b) / lam * (dt * lam)). rewrite scaled_angle.
+  change (omul RO (x + b) dt) with ((x + b) * dt).
+  destruct (Rlt_le_dec (Rabs ((x + b) * dt)) thr_y) as [H|H].
+  - rewrite !ltabs_true by exact H. rewrite !cite_true. apply c_eq; unfold cdivr; csimp; field; lra.
+  - assert (Hy : x + b <> 0) by exact (unmasked_nz thr_y (x + b) dt H0y H).
+    rewrite !ltabs_false by exact H. rewrite !cite_false. apply c_eq; unfold cdivr; csimp; field; lra.
+Qed.
+
+(* gradient._derivative_integral is exactly homogeneous of degree 2 under a change of the time unit *)
+Theorem time_scaling thr_dE thr_x thr_y w ev dt p q m n : 0 < thr_dE -> 0 < thr_x -> 0 < thr_y ->
+  deriv_integral_entry RO (thr_dE, thr_x, thr_y) (w / lam) (map (fun e => e / lam) ev) (dt * lam) p q m n
+  = cscal RO (lam * lam) (deriv_integral_entry RO (thr_dE, thr_x, thr_y) w ev dt p q m n).
+Proof.
+  intros H1 H2 H3. unfold deriv_integral_entry. rewrite !vg_map_div.
+  change (osub RO (vg RO ev p / lam) (vg RO ev q / lam)) with (vg RO ev p / lam - vg RO ev q / lam).
+  change (osub RO (vg RO ev p) (vg RO ev q)) with (di_b ev p q).
+  replace (vg RO ev p / lam - vg RO ev q / lam) with (di_b ev p q / lam) by (unfold di_b; field; lra).
+  change (oadd RO (w / lam) (osub RO (vg RO ev m / lam) (vg RO ev n / lam)))
+    with (w / lam + (vg RO ev m / lam - vg RO ev n / lam)).
+  change (oadd RO w (osub RO (vg RO ev m) (vg RO ev n))) with (di_x w ev m n).
+  replace (w / lam + (vg RO ev m / lam - vg RO ev n / lam)) with (di_x w ev m n / lam) by (unfold di_x; field; lra).
+  change (omul RO (di_b ev p q / lam) (dt * lam)) with (di_b ev p q / lam * (dt * lam)). rewrite scaled_angle.
+  change (omul RO (di_b ev p q) dt) with (di_b ev p q * dt).
+  destruct (Rlt_le_dec (Rabs (di_b ev p q * dt)) thr_dE) as [H|H].
+  - rewrite !ltabs_true by exact H. rewrite !cite_true. apply di_tmp1_scaling; auto.
+  - rewrite !ltabs_false by exact H. rewrite !cite_false. apply di_nz_scaling; auto.
+    exact (unmasked_nz thr_dE _ dt H1 H).
+Qed.
+End Scaling.
+
+(* ------------------------------------------------------------------ pre-fix code: absolute masks np.abs(x) < thr *)
+Definition di_tmp2_prefix (thr x dt : R) : Cx :=
+  cite RO (ltabs RO x thr) (0, dt) (cos (x * dt) / x - 1 / x, sin (x * dt) / x).
+Definition di_tmp1_prefix (thr x dt : R) : Cx :=
+  let t2 := di_tmp2_prefix thr x dt in
+  cite RO (ltabs RO x thr) (dt * dt / 2, 0)
+    (sin (x * dt) / x * dt + fst t2 / x, - (cos (x * dt) / x * dt) + snd t2 / x).
+Definition di_nz_prefix (thr thr_y x b dt : R) : Cx :=
+  let y := x + b in
+  cdivr RO (cadd' (cite RO (ltabs RO y thr_y) (0, - dt) ((1 - cos (y * dt)) / y, - sin (y * dt) / y))
+                  (di_tmp2_prefix thr x dt)) b.
+Definition deriv_integral_entry_prefix (th3 : R * R * R) (w : R) (ev : list R) (dt : R) (p q m n : nat) : Cx :=
+  let '(thr_dE, thr_x, thr_y) := th3 in
+  cite RO (ltabs RO (di_b ev p q) thr_dE) (di_tmp1_prefix thr_x (di_x w ev m n) dt)
+          (di_nz_prefix thr_x thr_y (di_x w ev m n) (di_b ev p q) dt).
+
+(* extracted threshold, lam = 2^27, a single level, w = 10, dt = 1 (|sin|, |cos| <= 1 suffice) *)
+Theorem time_scaling_prefix_refuted :
   let thr := Rdya 944473296573929 (-73) in
   exists lam w dt : R, 0 < lam /\
-    deriv_integral_entry RO (thr, thr, thr) (w / lam) [0] (dt * lam) 0 0 0 0
-    <> cscal RO (lam * lam) (deriv_integral_entry RO (thr, thr, thr) w [0] dt 0 0 0 0).
+    deriv_integral_entry_prefix (thr, thr, thr) (w / lam) [0] (dt * lam) 0 0 0 0
+    <> cscal RO (lam * lam) (deriv_integral_entry_prefix (thr, thr, thr) w [0] dt 0 0 0 0).
 Proof.
   cbv zeta. set (thr := Rdya 944473296573929 (-73)).
   assert (P : 0 < thr < 1) by (apply (Rdya_small 944473296573929 73); reflexivity).
   assert (Q : 10 / 134217728 < thr) by (apply (Rdya_lower 944473296573929 73 10 134217728); reflexivity).
   exists 134217728, 10, 1. split. lra.
-  unfold deriv_integral_entry. unfold vg, vget; simpl nth.
-  change (osub RO 0 0) with (0 - 0). replace (0 - 0) with 0 by ring.
-  change (oadd RO (10 / 134217728) 0) with (10 / 134217728 + 0). change (oadd RO 10 0) with (10 + 0).
-  rewrite !Rplus_0_r.
+  unfold deriv_integral_entry_prefix, di_b, di_x. unfold vg, vget; simpl nth.
+  replace (0 - 0) with 0 by ring. rewrite !Rplus_0_r.
   rewrite ltabs_true by (rewrite Rabs_R0; lra). rewrite !cite_true.
-  unfold di_tmp1.
+  unfold di_tmp1_prefix.
   rewrite (ltabs_true (10 / 134217728)) by (rewrite Rabs_right by lra; exact Q).
   rewrite (ltabs_false 10) by (rewrite Rabs_right by lra; lra).
-  rewrite cite_true, cite_false. rewrite di_tmp2_unmasked by (rewrite Rabs_right by lra; lra).
-  intros H. apply (f_equal fst) in H. revert H. unfold o2; simpl. rewrite !Rmult_1_l, !Rmult_1_r.
+  rewrite cite_true, cite_false. unfold di_tmp2_prefix.
+  rewrite (ltabs_false 10) by (rewrite Rabs_right by lra; lra). rewrite cite_false.
+  intros H. apply (f_equal fst) in H. revert H. simpl. rewrite !Rmult_1_l, !Rmult_1_r.
   intros H.
   assert (E : sin 10 / 10 + (cos 10 / 10 - 1 / 10) / 10 = 1 / 2).
   { apply (Rmult_eq_reg_l (134217728 * 134217728)); [|lra]. rewrite <- H. field. }
